@@ -127,6 +127,13 @@ class Perm(System):
             kb = {int(k): float(v) for k, v in b.distances.items()}
             if not close(ka, kb, rel=1e-12, abs_=1e-12):
                 raise Violation("divergence", "%s: recorded distances differ under row permutation: %r vs %r" % (self.name, ka, kb), expected=ka, observed=kb, sig="perm-divergence:%s" % self.name)
+        if not cfg["decisions"] and a.drift_state != b.drift_state:
+            # detect_batch=2 bootstraps its first threshold by row position, so the property allows the two runs to
+            # decide differently; from then on they hold different references and are no longer comparable
+            ctx.terminal = True
+            ctx.count("decisions_differ_where_the_property_allows_it")
+            obs["state"] = a.drift_state
+            return obs
         if cfg["decisions"]:
             sa = (a.drift_state, int(a.total_batches), int(a.batches_since_reset))
             sb = (b.drift_state, int(b.total_batches), int(b.batches_since_reset))
